@@ -150,11 +150,14 @@ def _miri(specs):
 
 
 PROPS["C10"]["extra_phases"] = [_miri([
-    {"package": "primsim", "engine": "arc", "free": True, "plans": 48, "seeds": 64},
+    # the free-running slice also runs (much smaller) in the quick tier: it is the only place where
+    # instruction-level interleavings of clone/drop are explored, and a check-then-act "last handle"
+    # shortcut in the release path is invisible to anything sequential
+    {"package": "primsim", "engine": "arc", "free": True, "plans": 48, "seeds": 64, "quick": True},
     {"package": "primsim", "engine": "arc", "free": False, "plans": 300, "seeds": 1},
 ])]
 PROPS["C19"]["extra_phases"] = [_miri([
-    {"package": "primsim", "engine": "waker", "free": True, "plans": 48, "seeds": 64},
+    {"package": "primsim", "engine": "waker", "free": True, "plans": 48, "seeds": 64, "quick": True},
     {"package": "primsim", "engine": "waker", "free": False, "plans": 300, "seeds": 1},
 ])]
 PROPS["C11"]["extra_phases"] = [_miri([{"package": "primsim", "engine": "vec", "free": False, "plans": 300, "seeds": 1}])]
@@ -246,6 +249,9 @@ def build_all():
     import gensim
     gensim.build_shim()
     gensim.build_bindgen()
+    # the small Miri slices of the quick tier (C10, C19): compile the interpreter's copy now
+    import miri
+    miri.run_miri("primsim", "arc", 1, 0, 1, True, 0, thorough=False)
 
 
 def replay_special(prop, doc, path):
